@@ -134,7 +134,7 @@ U('dyn_find', fam_dyn, 'Dyn_find', ['C05', 'C16', 'C17'], inline=['Item_deleted'
 U('dyn_ceil_log2', fam_dyn, 'Dyn_ceil_log2', ['C15', 'C17'], decls=['dyn_ghost'], insts=DYN_Q, spec=('dyn.spec',))
 U('dyn_max_size', fam_dyn, 'Dyn_max_size', ['C15', 'C17'], inline=['Dyn_ceil_log2'], decls=['dyn_ghost'], insts=DYN_Q, spec=('dyn.spec',))
 
-U('dyn_pairwise_merge', fam_dyn, 'Dyn_pairwise_merge', ['C15', 'C05', 'C17'], inline=['Dyn_level', 'Dyn_pgm', 'Dyn_has_pgm', 'Dyn_max_fully_allocated_level'],
+U('dyn_pairwise_merge', fam_dyn, 'Dyn_pairwise_merge', ['C15', 'C05', 'C17'], thorough_only_props=['C17'], inline=['Dyn_level', 'Dyn_pgm', 'Dyn_has_pgm', 'Dyn_max_fully_allocated_level'],
   assumed=['Dyn_merge', 'pgmv_copy_Item', 'PGMType_build'], decls=['dyn_ghost', 'dyn_merge_ghost', 'dyn_mergeview'], lemmas=['lemma_merge_fits'],
   insts=DYN_Q, thorough_insts=DYN_ALL, spec=('dyn.spec',), timeout=1800, partition=16, mem_gb=12, defines=['NLEV=4'], solver='kissat',
   assumptions=[DYN_NOTE, 'quick tier: at most 4 used levels above the buffer (NLEV=4); the thorough tier runs the same contract with NLEV=32 = the size of the levels vector (unit dyn_pairwise_merge_full)', 'size accounting of the merge cascade (lemma_merge_fits) is established by insert (proved there as the C15 capacity assertion)'])
@@ -210,7 +210,7 @@ U('compressed_search', fam_compressed, 'Compressed_search', ['C08', 'C16', 'C17'
 PLM_Q = [fam_plm.pinst('uint64_t'), fam_plm.pinst('int32_t', 'int32_t')]
 U('oplm_ctor', fam_plm, 'OPLM_ctor', ['C20', 'C17'], decls=['plm_ghost'], insts=PLM_Q, spec=('plm.spec',))
 U('oplm_reset', fam_plm, 'OPLM_reset', ['C03', 'C17'], decls=['plm_ghost'], insts=PLM_Q[:1], spec=('plm.spec',))
-U('oplm_add_point', fam_plm, 'OPLM_add_point', ['C20', 'C03', 'C17'], assumed=['Slope_lt', 'Slope_gt', 'OPLM_cross'], decls=['plm_ghost'], insts=PLM_Q, spec=('plm.spec',),
+U('oplm_add_point', fam_plm, 'OPLM_add_point', ['C20', 'C03', 'C17'], assumed=['Slope_lt', 'Slope_gt', 'OPLM_cross'], decls=['plm_ghost'], insts=PLM_Q[:1], thorough_insts=PLM_Q, thorough_only_props=['C17'], spec=('plm.spec',),
   defines=['PGMV_STUB_SLOPE_CMP'], timeout=1800, partition=24, mem_gb=10, solver='kissat',
   assumptions=['Slope comparisons / cross products are replaced by unconstrained stubs: the control and memory-safety obligations hold for every outcome of the geometry',
                'geo-1/geo-2 (epsilon-accuracy and maximality of the hull) are checked only by the bounded native link'])
@@ -230,7 +230,7 @@ PLM_K = [fam_plm.pinst('uint64_t'), fam_plm.pinst('int64_t')]
 U('ms_add_point', fam_plm, 'make_segmentation__add_point', ['C03', 'C02', 'C17'], extract_from='make_segmentation',
   target_sig='void make_segmentation__add_point(size_t *c, OPLM *opt, X x, size_t y)', assumed=['OPLM_add_point', 'OPLM_get_segment', 'ms_out', 'OPLM_ctor'],
   decls=['plm_ghost', 'feed_ghost', 'feed_ghost2'], insts=PLM_K[:1], spec=('plm.spec',), assumptions=[FEED_NOTE])
-U('make_segmentation', fam_plm, 'make_segmentation', ['C02', 'C03', 'C17'], attach=['make_segmentation__add_point'], assumed=['OPLM_ctor', 'OPLM_get_segment', 'ms_out', 'OPLM_add_point'],
+U('make_segmentation', fam_plm, 'make_segmentation', ['C02', 'C03', 'C17'], thorough_only_props=['C17'], attach=['make_segmentation__add_point'], assumed=['OPLM_ctor', 'OPLM_get_segment', 'ms_out', 'OPLM_add_point'],
   decls=['plm_ghost', 'feed_ghost', 'feed_ghost2'], lemmas=['lemma_in_sorted'], insts=PLM_K[:1], thorough_insts=PLM_K, spec=('plm.spec',), timeout=1800, partition=24, mem_gb=10,
   assumptions=[FEED_NOTE, 'integer keys (the floating-point branch with nextafter is compiled but dead for the instantiated key types)'])
 
@@ -249,7 +249,7 @@ U('cwrap_search', fam_cwrap, 'PGMWrapper_search', ['C18', 'C17'], assumed=['PGMW
   spec=('cwrap.spec',), assumptions=[ACC_NOTE, 'the inherited segment_for_key is replaced by the contract proved in unit pgmindex_segment_for_key',
                                      'the macro-generated extern "C" functions (create/destroy/forwarding) are not under contract'])
 
-U('dyn_merge', fam_dyn, 'Dyn_merge', ['C05', 'C17'], inline=['Item_deleted'], assumed=['pgmv_copy_Item'], decls=['dyn_ghost', 'dyn_mergeview'],
+U('dyn_merge', fam_dyn, 'Dyn_merge', ['C05', 'C17'], thorough_only_props=['C17'], inline=['Item_deleted'], assumed=['pgmv_copy_Item'], decls=['dyn_ghost', 'dyn_mergeview'],
   lemmas=['lemma_strict2', 'lemma_absent2'], insts=DYN_Q, thorough_insts=DYN_ALL, spec=('dyn.spec',), timeout=1500, partition=16, mem_gb=10, solver='kissat', cases=[('PGMV_CASE', '0'), ('PGMV_CASE', '2')],
   assumptions=[DYN_NOTE, 'quick tier: cases 0 (both runs non-empty, second run from index 0) and 2 (an empty run); case 1 (second run a proper slice, as range() calls it) needs 20 min and runs in the thorough tier as unit dyn_merge_slice', 'range std::move / std::copy replaced by an element-wise copy contract [A]', 'the first run and the output start at index 0 (as in pairwise_merge and range()); the second run may be a slice [first2,last2)'])
 U('dyn_merge_slice', fam_dyn, 'Dyn_merge', ['C05', 'C17'], thorough_only_props=['C05', 'C17'], inline=['Item_deleted'], assumed=['pgmv_copy_Item'], decls=['dyn_ghost', 'dyn_mergeview'],
@@ -277,7 +277,7 @@ U('dyn_insert', fam_dyn, 'Dyn_insert', ['C15', 'C17'], inline=['Dyn_level', 'Dyn
   assumptions=[DYN_NOTE, 'std::vector::insert / emplace_back of the level vectors replaced by assumed contracts [A]', 'at most 32 used levels above the buffer (NLEV=32 = the size of the levels vector, enumerated fresh level arrays); (used_levels+1)*log2(base) <= 50 (sizes below 2^50); constant vector capacities'])
 
 U('mapped_serialize', fam_mapped, 'Mapped_serialize_and_map', ['C12', 'C17'], assumed=['pgmv_fstream_open', 'pgmv_fstream_seekp', 'pgmv_write_member', 'pgmv_write_container', 'pgmv_map_file'],
-  decls=['mapped_ghost', 'ser_ghost'], insts=[kinst('uint64_t'), kinst('int32_t')], thorough_insts=MAPPED_ALL, spec=('mapped.spec',), mem_gb=20, timeout=900, drop_checks=['--conversion-check'],
+  decls=['mapped_ghost', 'ser_ghost'], insts=[kinst('uint64_t'), kinst('int32_t')], thorough_insts=MAPPED_ALL, spec=('mapped.spec',), timeout=900, drop_checks=['--conversion-check'],
   assumptions=['std::fstream write/seekp and mmap are replaced by logging stubs [A]: a write advances the stream by the size written; map_file exposes the file',
                'the constructors (field initialisation, build, the order of calls) and the load constructor are not under contract: bounded link mapped_files_link'])
 
